@@ -16,7 +16,7 @@ def runner_lean(ctx):
     return ok
 
 
-def generated_obligations(ctx, render, namespace, only, what):
+def generated_obligations(ctx, render, namespace, only, what, sites=None):
     """Run one of the translators of translate/, let Lean check the generated file, record each generated theorem as an obligation."""
     text, thms, problems = render()
     path = os.path.join(ctx.work, "Gen" + namespace.split(".")[-1] + ".lean")
@@ -24,7 +24,7 @@ def generated_obligations(ctx, render, namespace, only, what):
     with LakeLock():
         res = sh(["lake", "env", "lean", path], cwd=LEAN)
     for site, why in problems:
-        if only is None or any(o in site for o in only) or site in ("verdict",):
+        if sites is None or any(x in site for x in sites):
             ctx.oblige(f"{what}: {site} extracted from the source", False, why)
     for thm in thms:
         if only is not None and thm not in only:
@@ -66,7 +66,7 @@ def outside_bracket_scens():
 def check_C01(ctx):
     runner_lean(ctx)
     import verdict as vd
-    generated_obligations(ctx, vd.render, "Cgreen.Gen.Verdict", ["suite_verdict", "single_verdict"], "the verdict expressions of run_test_suite() and run_single_test()")
+    generated_obligations(ctx, vd.render, "Cgreen.Gen.Verdict", ["suite_verdict", "single_verdict"], "the verdict expressions of run_test_suite() and run_single_test()", sites=["verdict"])
     rng = random.Random(ctx.seed * 1000 + 1)
     bench = Bench(ctx)
     n = sizes(ctx, 60, 1500)
@@ -311,6 +311,12 @@ def check_C18(ctx):
         for pos in (0, 1):
             tests = [T("a", body=["P"])][:pos] + [T("big", body=["HP"] + ["P"] * k)] + [T("b", body=["P", "P"])]
             scens.append(Scen(S("top", items=tests), mode="fork", cap=cap))
+    # what the reporter has already counted in this suite (a skipped test, an exception, failures) when the big test comes
+    for k in (cap - 1, cap, cap + 1, 2 * cap + 3):
+        for before in ([T("sk", x=1, body=["P"])], [T("sk", body=["S"])], [T("sk", body=["P", "S"]), T("a", body=["P"])], [T("ex", body=["K11"])], [T("fl", body=["F", "F"])]):
+            for mode in ("fork", "inproc"):
+                if ctx.tier == "quick" and k == 2 * cap + 3 and mode == "inproc": continue
+                scens.append(Scen(S("top", items=[S("inner", items=[t.copy() for t in before] + [T("big", body=["P"] * k), T("b", body=["P"])])]), mode=mode, cap=cap))
     dis, orf = explore(ctx, bench, scens, ["text", "cute"], oracle_C18, "C18", check_events=True)
     report(ctx, bench, dis, orf, oracle_C18, "C18")
     ctx.coverage["samples"] = [f"k={len(t.body)} checks in test 'big', mode {s.mode}" for s in scens[:6] for _, t in s.root.tests() if t.name == "big"]
@@ -492,7 +498,7 @@ def reporter_view(o, reporter, scen):
 def check_C17(ctx):
     runner_lean(ctx)
     import verdict as vd
-    generated_obligations(ctx, vd.render, "Cgreen.Gen.Verdict", ["folding_after_the_last_read"], "what each reporter's finish_suite does to the counters")
+    generated_obligations(ctx, vd.render, "Cgreen.Gen.Verdict", ["folding_after_the_last_read"], "what each reporter's finish_suite does to the counters", sites=["reporter.c"])
     rng = random.Random(ctx.seed * 1000 + 17)
     bench = Bench(ctx)
     scens = [s for s in small_scope(rng, sizes(ctx, 40, 500))] + [Scen(gen_tree(rng, max_tests=8)) for _ in range(sizes(ctx, 50, 1200))]
@@ -1362,7 +1368,12 @@ def replay(ctx, path):
 # ---- C20: bookkeeping ---------------------------------------------------------------------------
 def growth_step():
     m = re.search(r"vector->space\s*\+=\s*(\d+)", open(os.path.join(REPO, "src", "vector.c")).read())
-    return int(m.group(1)) if m else None
+    if m:
+        return int(m.group(1))
+    # not spelled `space += <number>`: take it from what the growth translator extracts (vector_add_newCap = step + c)
+    import growth as gr0
+    m0 = re.search(r"def vector_add_newCap \(n c : Nat\) : Nat := (\d+) \+ c", gr0.render()[0])
+    return int(m0.group(1)) if m0 else None
 
 
 def gen_vec_history(rng, step, target):
@@ -1384,11 +1395,144 @@ def gen_vec_history(rng, step, target):
     return ops
 
 
+def discoverer_family(ctx, rng, tag):
+    """tools/discoverer.c: the real discover_tests_in() (with `nm` replaced by `cat`, sanitizers on) against the Lean model
+    `Lines.discover` and an independent oracle, on symbol listings whose lines have every length around every size the line
+    buffer can have. The theorems (C20_line_of_any_length, C20_listing_read_whole, C09_discovery) hold for every initial
+    size from 3 bytes; the size in the source is read here and checked against that hypothesis."""
+    src = open(os.path.join(REPO, "tools", "discoverer.c")).read()
+    m = re.search(r"add_all_tests_from\(.*?\bint\s+size\s*=\s*(\d+)\s*;", src, re.S)
+    size0 = int(m.group(1)) if m else None
+    ctx.oblige("the discoverer's line buffer starts at a constant size of at least 3 bytes (hypothesis of C20_line_of_any_length and C09_discovery)",
+               size0 is not None and size0 >= 3, f"size: {size0}")
+    if not size0 or size0 < 3:
+        return
+    impl = build_impl(ctx, asan=True, tag=tag)
+    exe = compile_harness(ctx, impl, "disc_probe", ["disc_probe.c", os.path.join(REPO, "tools", "io.c"), os.path.join(REPO, "tools", "test_item.c")],
+                          extra=[f"-I{REPO}/tools", "-w"])
+    PRE = "0000000000004010 D CgreenSpec__"
+
+    def test_line(total, ctxname):
+        """a definition line of `total` characters including its line feed (None when it cannot be that short)"""
+        n = total - 1 - len(PRE) - len(ctxname) - 4
+        if n < 1: return None
+        name = "".join(rng.choice("abcdefghij_") if k % 2 and k + 1 < n else rng.choice("klmnopqrst") for k in range(n))     # no "__", no "_" at the end
+        return ("test", ctxname, name, PRE + ctxname + "__" + name + "__")
+
+    def other_line(total):
+        n = max(0, total - 1)
+        kind = rng.choice(["T", "U", "D", "spec-not-def", "blank"])
+        if kind == "T": txt = ("0000000000001000 T " + "f" * n)[:n]
+        elif kind == "U": txt = ("                 U " + "m" * n)[:n]
+        elif kind == "D": txt = ("0000000000004040 D " + "v" * n)[:n]
+        elif kind == "spec-not-def": txt = ("0000000000001200 T CgreenSpec__Ctx__" + "w" * n)[:n]
+        else: txt = " " * n
+        return ("other", None, None, txt)
+
+    def listing_of(lines, final_newline=True):
+        body = "\n".join(l[3] for l in lines) + ("\n" if final_newline and lines else "")
+        return body
+
+    cases = []     # (label, lines, final_newline)
+    bounds = [size0 << k for k in range(0, 4 if ctx.tier == "quick" else 5)]
+    for B in bounds:
+        for d in range(-3, 4):
+            total = B - 2 + d
+            for ctxname in ("Ctx", "default"):
+                t = test_line(total, ctxname)
+                if t is None: continue
+                follow = test_line(rng.randrange(40, 80), "Ctx")
+                warm = [test_line(B // 2 + 10, "Ctx")] if B > size0 else []     # brings the buffer to B bytes first (when B is not the initial size)
+                warm = [w for w in warm if w]
+                cases.append((f"a test whose line is {total} characters (buffer {B})", warm + [t, follow, other_line(20)], True))
+            cases.append((f"another line of {total} characters followed by a test", [other_line(total), test_line(60, "Ctx")], True))
+    for _ in range(sizes(ctx, 40, 400)):
+        lines = []
+        for _ in range(rng.randrange(1, 9)):
+            total = rng.choice([rng.randrange(1, 120), rng.choice(bounds) - 2 + rng.randrange(-2, 3), rng.randrange(1, 5000)])
+            l = test_line(total, rng.choice(["Ctx", "default", "A_b"])) if rng.random() < 0.6 else other_line(total)
+            lines.append(l or other_line(total))
+        cases.append(("random listing", lines, rng.random() < 0.85))
+    d = os.path.join(ctx.work, "listings"); os.makedirs(d, exist_ok=True)
+
+    def run_impl(batch):
+        paths = []
+        for k, (label, lines, fin) in enumerate(batch):
+            pth = os.path.join(d, f"l{k}.txt"); open(pth, "w").write(listing_of(lines, fin)); paths.append(pth)
+        r = subprocess.run([exe] + paths, stdout=subprocess.PIPE, stderr=subprocess.PIPE, env=asan_env(), timeout=600)
+        out = r.stdout.decode("latin-1").split("\n")[:-1]
+        return out, r.returncode, r.stderr.decode("latin-1")
+
+    def hx(t): return t.encode().hex() if t else "-"
+
+    def want_of(lines):
+        items = [f"{hx(c)}:{hx(n)}:{hx(txt[txt.index('CgreenSpec__'):])}" for kind, c, n, txt in lines if kind == "test"]
+        return (f"n={len(items)} " + " ".join(items)).rstrip()
+
+    def describe(lines, fin):
+        return "\n".join(f"# line {i + 1}: {len(l[3]) + 1} characters with its line feed, " + (f"test {l[1]}:<{len(l[2])} characters>" if l[0] == "test" else "no test")
+                         for i, l in enumerate(lines)) + ("" if fin else "\n# (the last line has no line feed)")
+
+    out, rc, err = run_impl(cases)
+    minp = "".join(f"{size0} {hx(listing_of(lines, fin))}\n" for _, lines, fin in cases)
+    mout = run_model(["discover"], minp).split("\n")
+    ndis = nor = 0
+    if rc != 0 or len(out) != len(cases):
+        k = min(len(out), len(cases) - 1)
+        label, lines, fin = cases[k]
+        ctx.violation(f"[{ctx.prop}] the discoverer crashed or stopped (exit {rc}) reading a listing ({label}): " +
+                      " ".join(l.strip() for l in err.split("\n") if "ERROR" in l or "SUMMARY" in l or l.strip().startswith("#0"))[:300],
+                      describe(lines, fin) + "\n" + listing_of(lines, fin), found_input=True, facts={"crash": True, "where": "discoverer"})
+    for k, ((label, lines, fin), a) in enumerate(zip(cases, out)):
+        mo = mout[k] if k < len(mout) else ""
+        mm = re.match(r"safe=(\w+) (n=.*)$", mo)
+        mitems = mm.group(2).rstrip() if mm else None
+        if mm and mm.group(1) != "true":
+            ctx.oblige("the model itself reads every piece inside the buffer", False, label)
+        if a.rstrip() != mitems:
+            ndis += 1
+            if ndis <= 3:
+                ctx.oblige("correspondence (discoverer)", False, f"{label}: model `{(mitems or '')[:80]}` impl `{a[:80]}`")
+        w = want_of(lines)
+        if a.rstrip() != w:
+            nor += 1
+            if nor <= 4:
+                # shrink: drop lines while the discoverer still finds something else than what is listed
+                cur = list(lines)
+                changed = True
+                while changed and len(cur) > 1:
+                    changed = False
+                    for i in range(len(cur)):
+                        cand = cur[:i] + cur[i + 1:]
+                        o2, rc2, _ = run_impl([("", cand, fin)])
+                        if rc2 != 0 or not o2 or o2[0].rstrip() != want_of(cand):
+                            cur, changed = cand, True
+                            break
+                o2, rc2, _ = run_impl([("", cur, fin)])
+                got = o2[0] if o2 else f"(exit {rc2})"
+                ng = re.match(r"n=(\d+)", got)
+                ndef = sum(1 for l in cur if l[0] == 'test')
+                same_count = ng and int(ng.group(1)) == ndef
+                gl = [len(x.split(":")[2]) // 2 for x in got.split(" ")[1:] if x.count(":") == 2]
+                wl = [len(l[3]) - l[3].index("CgreenSpec__") for l in cur if l[0] == "test"]
+                ctx.violation((f"[{ctx.prop}] the discoverer finds tests with other names than the listing defines (specification names of {gl} characters, defined: {wl})" if same_count else
+                               f"[{ctx.prop}] the discoverer finds {ng.group(1) if ng else got[:40]} tests in a listing that defines {ndef}") +
+                              f" (line lengths with line feed: {[len(l[3]) + 1 for l in cur]}; the line buffer starts at {size0} bytes)",
+                              describe(cur, fin) + "\n# feed to harness/disc_probe (tools/discoverer.c with nm replaced by cat):\n" + listing_of(cur, fin),
+                              found_input=True, facts={"where": "discoverer", "line_lengths": [len(l[3]) + 1 for l in cur]})
+    ctx.oblige("correspondence (discoverer): model and implementation find the same tests, with the same names, in every listing", ndis == 0, f"{ndis} listings disagree")
+    ctx.coverage["discoverer"] = {"listings": len(cases), "initial_buffer": size0, "buffer_sizes_probed": bounds,
+                                  "line_lengths": [min(len(l[3]) + 1 for _, ls, _ in cases for l in ls), max(len(l[3]) + 1 for _, ls, _ in cases for l in ls)],
+                                  "listings_without_final_line_feed": sum(1 for c in cases if not c[2]), "oracle_disagreements": nor}
+
+
 def check_C20(ctx):
     lean_check(ctx)
     rng = random.Random(ctx.seed * 1000 + 20)
     step = growth_step()
     ctx.oblige("the vector growth step is a positive constant read from src/vector.c (the theorems hold for every positive step)", bool(step) and step > 0, str(step))
+    if not step:
+        return
     # ---- the translator: the arithmetic of every growable array, re-extracted from the current sources; Lean proves, for all
     # element counts and capacities, that the index written is inside what was allocated and the capacity recorded is not larger ----
     import growth as gr
@@ -1436,6 +1580,8 @@ def check_C20(ctx):
             ctx.oblige("the model itself reports no out-of-bounds access", False, m[:200])
     ctx.oblige("correspondence C20: vector model and implementation agree on every history (results and sizes)", ndis == 0, f"{ndis} histories disagree")
     nvec = len(blocks)
+    # ---- the discoverer's line buffer: lines of every length around every size the buffer can have ----
+    discoverer_family(ctx, rng, "asan")
     # ---- names, nesting, counts under every reporter, sanitizers on ----
     bench = Bench(ctx, asan=True)
     scens, labels = [], []
@@ -1454,6 +1600,10 @@ def check_C20(ctx):
         scens.append(Scen(root)); labels.append(f"suites nested {depth} deep")
     for count in (step - 1, step, step + 1, 2 * step + 1):
         scens.append(Scen(S("top", items=[T(f"t{i}", body=["P"] if i % 7 else ["F"]) for i in range(count)]))); labels.append(f"{count} tests in one suite")
+    # the results of one test outgrow what a reporter keeps them in (the libxml2 reporter reads a test's results back through a
+    # buffer that starts at 4096 bytes; a failure is some 200 bytes)
+    for nf in ([1, 15, 19, 20, 21, 22, 25, 45, 300] if ctx.tier == "quick" else [1, 10, 15, 17, 18, 19, 20, 21, 22, 23, 24, 25, 30, 40, 41, 42, 45, 80, 90, 170, 300, 700]):
+        scens.append(Scen(S("top", items=[T("a", body=["P"]), T("many", body=["F"] * nf + ["P"]), T("b", body=["F"])]))); labels.append(f"{nf} failing checks in one test")
     jobs = [(s.text(), r) for s in scens for r in REPORTERS_ALL]
     # deeper than a per-suite file name allows: the XML reporters through their printer hooks, the others as they are
     DEEP_REPS = ["text", "cute", "cdash", "xmlp", "libxmlp"]
@@ -1489,12 +1639,20 @@ def check_C20(ctx):
             if crashed:
                 summary = " ".join(l.strip() for l in o.stderr.split("\n") if "ERROR" in l or "runtime error" in l or "SUMMARY" in l)[:260]
                 where = "text_reporter" if "text_reporter" in o.stderr else "xml_reporter" if "xml_reporter.c" in o.stderr else "libxml_reporter" if "libxml_reporter" in o.stderr else "other"
-                key = (where, lab.split(" of ")[0].split(" nested")[0])
+                key = (where, lab.split(" of ")[0].split(" nested")[0].split(" failing checks")[-1])
                 if key not in shown:
                     shown.add(key)
-                    ctx.violation(f"[C20] {lab}, {rep} reporter: undefined behaviour / crash in cgreen itself (exit {o.rc}): {summary}",
+                    ctx.violation(f"[C20] {lab}, {rep} reporter: " + ("the run does not end (stopped after the time allowed)" if o.timeout else f"undefined behaviour / crash in cgreen itself (exit {o.rc}): {summary}"),
                                   f"# reporter: {rep}   (sanitizer build: harness/scenario_run <file> {rep} <outdir>)\n" + (s.text() if len(s.text()) < 20000 else s.text()[:2000] + "\n# ... truncated"),
                                   found_input=True, facts={"crash": True, "where": where, "what": key[1], "depth_over_100": "nested" in lab and int(lab.split()[2]) > 100})
+            elif rep in ("xml", "libxml") and "failing checks in one test" in lab:
+                cases, perr = xml_testcases(o)
+                nf = int(lab.split()[0])
+                got = [c[2] for c in cases if c[1] == "many"]
+                if (perr or got != [nf]) and ("many", rep) not in shown:
+                    shown.add(("many", rep))
+                    ctx.violation(f"[C20] {lab}, {rep} reporter: the report shows {got} failures for that test" + (f" ({perr[0][:120]})" if perr else ""),
+                                  f"# reporter: {rep}\n" + s.text()[:3000], found_input=True, facts={"where": rep, "what": "many failures"})
             elif rep in ("text", "cute") and not o.timeout:
                 # results do not change with names / depth / counts
                 e = oracle_C03(s, m, o, rep)
@@ -2173,6 +2331,8 @@ def check_C09(ctx):
     ctx.coverage["samples"] = [" ".join(o + [x for l, p in pr for x in ([l] + ([p] if p else []))]) for pr, o in runs[:3]]
     ctx.coverage["evaluations"] = len(runs)
     ctx.coverage["distinct_nontrivial"] = len({str(r) for r in runs})
+    # ---- from the symbol listing to the list of tests: every line length around every size of the line buffer ----
+    discoverer_family(ctx, rng, "asan-disc")
 
 
 # ---- C14: per-test time limit ---------------------------------------------------------------------
